@@ -720,6 +720,9 @@ func c16ProgramRunOne(t *testing.T, p c16Program, prefix []int, expect []gate.Po
 				mu.Lock()
 				defer mu.Unlock()
 				var sb strings.Builder
+				// every field of the Tracer, known to this harness or not (see gate.DeepKey)
+				sb.WriteString(gate.DeepKey(tr))
+				sb.WriteString("|")
 				names := make([]string, 0, len(tr.traces))
 				for n, s := range tr.traces {
 					var e string
